@@ -21,6 +21,9 @@ CHECKS = {
  "C15": ("fault_enumeration", "A", "deterministic simulation: errno/EOF injection and actor-driven vanishing at every recorded read-side call of scenario worlds, pairs on two entries",
          "Exhaustive over the recorded (call kind, path, ordinal) positions of the scenario set x {EACCES, EIO, ENOENT, EOF, real vanishing}; pairs sampled (quick) / all first-stage pairs (thorough). Oracle: exit 0, report == reference partition minus a subset of the faulted entry, warning when the outcome changed, a partially read file never grouped with another inode.",
          "serial run; 'entry' read as the file (inode with all its scanned paths); faults on the input roots themselves excluded", "4/C15"),
+ "C20": ("exploration", "A", "deterministic simulation: a second real process holding fcntl locks (and F_SETLK failing at the seam) for every single/pair choice of droppable members",
+         "Exhaustive over 'which droppable member(s) are locked' (singles and pairs) per scenario world x 5 operations x {default, --no-lock} x {real holder, EAGAIN, EACCES at the seam}; thorough adds seeded worlds. Oracle: locked paths untouched and reported, others processed as in the lock-free run, counts.",
+         "serial mode; the lock-free twin run defines the droppable set; fcntl locks are per inode (hard links of a locked file count as locked)", "4/C20"),
 }
 NOT_APPLICABLE = {
  "C16": "pure function of (glob pattern, string): no schedule, clock, fault, stream or history for a simulator to control; needs bounded-exhaustive input enumeration against a reference matcher, which is a different technique (DESIGN section 5)",
